@@ -48,6 +48,18 @@ def queue_spec(seed):
             v["schedule"] = "always"
             v["home_base"] = f"hb{j}"
             bases.append({"id": f"hb{j}", "lat": round(LAT0 + 0.01 + 0.001 * j, 6), "lon": LON0, "station": None, "stalls": 1})
+    if seed % 6 == 3:
+        # two kinds of plug, one of each, both open to everybody: two queues at one station, and a controller that now and then
+        # tells a waiting vehicle to try the other kind
+        stations[0]["plugs"] = [{"charger": "DCFC", "count": 1}, {"charger": "LEVEL_2", "count": 1}]
+    long_wait = seed % 6 == 5 and not full and schedules is None
+    if long_wait:
+        # a depot plug that takes hours per vehicle, half-hour or hour steps, a run of three days: vehicles wait for more than a day
+        dt = rnd.choice([1800, 3600])
+        steps = 72 * 3600 // dt
+        stations[0]["plugs"] = [{"charger": "LEVEL_1", "count": 1, "on_shift": False}]
+        for v in vehicles:
+            v["soc"] = round(rnd.uniform(0.3, 0.6), 3)
     fleets = None
     if seed % 5 == 1:
         # a fleets file in which every other vehicle belongs to a fleet, the station to none (open to all): members and
@@ -72,16 +84,17 @@ def queue_spec(seed):
                 "mechatronics_type": "bev",
                 "powercurve_file": "normalized.yaml",
                 "powertrain_file": "normalized-electric.yaml",
-                "battery_capacity_kwh": rnd.choice([4, 6, 10]),
+                "battery_capacity_kwh": rnd.choice([4, 6, 10]) if not long_wait else rnd.choice([30, 45]),
                 "nominal_max_charge_kw": 50,
                 "charge_taper_cutoff_kw": 10,
                 "nominal_watt_hour_per_mile": 225,
-                "idle_kwh_per_hour": 0.02 if full else 0.8,
+                "idle_kwh_per_hour": 0.02 if full or long_wait else 0.8,
             }
         },
         "chargers": None,
-        "dispatcher": {"max_search_radius_km": 6.0, "ideal_fastcharge_soc_limit": rnd.choice([0.5, 0.8]), "charging_range_km_threshold": 15, "charging_range_km_soft_threshold": 25, "matching_range_km_threshold": 1},
+        "dispatcher": {**({"idle_time_out_seconds": 10**7} if long_wait else {}), "max_search_radius_km": 6.0, "ideal_fastcharge_soc_limit": rnd.choice([0.5, 0.8]) if not long_wait else 1.0, "charging_range_km_threshold": 15, "charging_range_km_soft_threshold": 25, "matching_range_km_threshold": 1},
         "global": {"lazy": False, "log_events": False},
+        "long_wait": long_wait,
     }, steps
 
 
@@ -91,7 +104,9 @@ def build_cases(tier, seed):
     for i in range(n):
         s = seed * 100000 + 18000 + i
         spec, steps = queue_spec(s)
-        ctrl = {"stack": ["ChargingFleetManager", {"benign_queue": {"p_leave": [0.0, 0.03, 0.08][i % 3], "p_abandon": [0.0, 0.02, 0.05][(i // 3) % 3], "p_resend": [0.0, 0.0, 0.3, 0.6][i % 4], "p_topup": 0.15 if s % 4 == 2 else 0.0, "p_send": 0.5 if s % 5 == 2 else 0.0}}]}
+        ctrl = {"stack": ["ChargingFleetManager", {"benign_queue": {"p_leave": [0.0, 0.03, 0.08][i % 3], "p_abandon": [0.0, 0.02, 0.05][(i // 3) % 3], "p_resend": [0.0, 0.0, 0.3, 0.6][i % 4], "p_topup": 0.15 if s % 4 == 2 else 0.0, "p_send": 0.5 if s % 5 == 2 else 0.08 if spec.get("long_wait") else 0.0, "p_switch": 0.06 if s % 6 == 3 else 0.0}}]}
+        if spec.get("long_wait"):
+            ctrl["stack"][1]["benign_queue"].update({"p_leave": 0.0, "p_abandon": [0.0, 0.01][i % 2], "p_send": 0.15})
         cases.append(trace_case("C18", i, s, {}, ctrl, steps, ["C18"], spec=spec, opts=({"cosim_ops": {"every": 12, "kinds": ["append_plugs"]}} if i % 4 == 3 else {})))
     return cases
 
